@@ -32,11 +32,6 @@ Qed.
 Definition toy : oracles :=
   {| numeric := fun s => match s with c :: _ => (48 <=? c) && (c <=? 57) | [] => false end;
      decode := fun _ s => Some s; pyspace := fun c => c =? 32; mk := fun _ _ t => t |}.
-Lemma refuted_fstring_field : exists t k ms,
-  read_many toy t = Ok ms /\ Nat.ltb k (length t) = true /\ read_many toy (firstn k t) = Lex.
-Proof.
-  exists [40; 102; 34; 97; 123; 120; 125; 34; 41], 6%nat. eexists. split; [vm_compute; reflexivity|]. split; vm_compute; reflexivity.
-Qed.
 Lemma refuted_dotted_identifier : exists t k ms,
   read_many toy t = Ok ms /\ Nat.ltb k (length t) = true /\ read_many toy (firstn k t) = Lex.
 Proof.
